@@ -63,7 +63,7 @@ def case_strategy(draw):
         case["offset"] = draw(st.integers(0, 3))
         return case
     cfg, theta = draw(gen.config_case(max_bins=2, max_scales=1, allow_rweight=False, units=["rad", "kpc", "Mpc/h"]))
-    if cfg["cosmology"] == "custom":
+    if cfg["cosmology"] in ("custom", "curved"):
         cfg["cosmology"] = "WMAP9"  # custom cosmologies cannot be written to YAML (documented)
     edges = gen.binning_edges_reference(cfg, cfg["cosmology"])
     scene = draw(gen.scene_case(theta, edges, 3, need_z=(0, 1, 2), min_patches=1, max_patches=4, max_per_patch=4))
